@@ -28,10 +28,11 @@ const (
 	EvEnter // entry of an inlined function
 	EvLeave // return from an inlined function
 	EvBranch
+	EvSite // a construct that can panic (only when Walker.Sites is set)
 )
 
 func (k EvKind) String() string {
-	return [...]string{"cond", "call", "write", "return", "loop-enter", "loop-exit", "go", "defer", "send", "recv", "enter", "leave", "branch"}[k]
+	return [...]string{"cond", "call", "write", "return", "loop-enter", "loop-exit", "go", "defer", "send", "recv", "enter", "leave", "branch", "site"}[k]
 }
 
 // Event is one step of an enumerated path.
@@ -66,6 +67,14 @@ type Event struct {
 	Op       string // "=", ":=", "++", "--", "+=", … ; "lit" for composite-literal keys
 	Local    types.Object
 
+	// EvSite
+	SiteKind  string   // "deref", "index", "slice", "mapwrite", "assert"
+	SiteX     string   // canonical operand (pointer dereferenced, collection indexed, map written)
+	SiteIdx   []string // canonical index / bound operands
+	SiteType  string   // static type of the operand
+	SiteExpr  ast.Expr // the operand's expression
+	SiteLocal []Lit    // conditions established to the left of the site inside the same boolean expression
+	SiteField string   // field id of the operand when it is (an alias of) a struct field
 	// EvReturn
 	Results []string
 	// EvSend / EvRecv
@@ -165,6 +174,7 @@ type Walker struct {
 	root        *FuncInfo
 	rootLit     *ast.FuncLit
 	FuncLits    []*LitRoot // function literals met (for separate enumeration)
+	Sites       bool       // emit EvSite events
 	seenLit     map[*ast.FuncLit]bool
 }
 
@@ -375,6 +385,9 @@ func (w *Walker) stmt(s ast.Stmt, st *pstate, c *ctl, k func(*pstate)) {
 	if w.overflow {
 		return
 	}
+	if w.Sites && s != nil {
+		st = w.stmtSites(s, st, c)
+	}
 	switch x := s.(type) {
 	case nil, *ast.EmptyStmt:
 		k(st)
@@ -415,6 +428,7 @@ func (w *Walker) stmt(s ast.Stmt, st *pstate, c *ctl, k func(*pstate)) {
 		w.ret(x, st, c)
 	case *ast.IfStmt:
 		w.stmt(x.Init, st, c, func(s2 *pstate) {
+			s2 = w.headSites(x.Cond, s2, c)
 			w.cond(x.Cond, s2, c,
 				func(s3 *pstate) { w.stmts(x.Body.List, s3, c, k) },
 				func(s3 *pstate) {
@@ -1064,6 +1078,7 @@ func (w *Walker) constOf(e ast.Expr, st *pstate, c *ctl) *types.Const {
 func (w *Walker) switchStmt(x *ast.SwitchStmt, st *pstate, c *ctl, k func(*pstate), label string) {
 	w.stmt(x.Init, st, c, func(s2 *pstate) {
 		if x.Tag != nil {
+			s2 = w.headSites(x.Tag, s2, c)
 			w.evalCalls(x.Tag, s2, c)
 		}
 		cc := &ctl{parent: c, fn: c.fn, info: c.info, labels: c.labels, brk: k}
@@ -1159,6 +1174,12 @@ func withLabel(m map[string]*ctl, l string, c *ctl) map[string]*ctl {
 
 func (w *Walker) typeSwitch(x *ast.TypeSwitchStmt, st *pstate, c *ctl, k func(*pstate), label string) {
 	w.stmt(x.Init, st, c, func(s2 *pstate) {
+		switch a := x.Assign.(type) {
+		case *ast.AssignStmt:
+			s2 = w.headSites(a.Rhs[0], s2, c)
+		case *ast.ExprStmt:
+			s2 = w.headSites(a.X, s2, c)
+		}
 		var subject ast.Expr
 		var bind *ast.Ident
 		switch a := x.Assign.(type) {
@@ -1350,6 +1371,7 @@ func (w *Walker) forStmt(x *ast.ForStmt, st *pstate, c *ctl, k func(*pstate), la
 			})
 		}
 		if x.Cond != nil {
+			s2 = w.headSites(x.Cond, s2, c)
 			w.cond(x.Cond, s2, c, body, func(s *pstate) {
 				// zero iterations
 				s, mark := w.enterLoop(x, "", s)
@@ -1980,4 +2002,188 @@ func min(a, b int) int {
 		return a
 	}
 	return b
+}
+
+// stmtSites emits EvSite events for the expressions evaluated by the statement's own header
+// (nested statements emit their own when they are walked).
+func (w *Walker) stmtSites(s ast.Stmt, st *pstate, c *ctl) *pstate {
+	var exprs []ast.Expr
+	var lhs []ast.Expr
+	switch x := s.(type) {
+	case *ast.ExprStmt:
+		exprs = append(exprs, x.X)
+	case *ast.AssignStmt:
+		exprs = append(exprs, x.Rhs...)
+		lhs = x.Lhs
+	case *ast.ReturnStmt:
+		exprs = append(exprs, x.Results...)
+	case *ast.IncDecStmt:
+		exprs = append(exprs, x.X)
+	case *ast.SendStmt:
+		exprs = append(exprs, x.Chan, x.Value)
+	case *ast.GoStmt:
+		exprs = append(exprs, x.Call)
+	case *ast.DeferStmt:
+		exprs = append(exprs, x.Call)
+	case *ast.DeclStmt:
+		if gd, ok := x.Decl.(*ast.GenDecl); ok {
+			for _, sp := range gd.Specs {
+				if vs, ok := sp.(*ast.ValueSpec); ok {
+					exprs = append(exprs, vs.Values...)
+				}
+			}
+		}
+	case *ast.RangeStmt:
+		exprs = append(exprs, x.X)
+	}
+	for _, e := range exprs {
+		st = w.exprSites(e, nil, false, st, c)
+	}
+	for _, e := range lhs {
+		st = w.exprSites(e, nil, true, st, c)
+	}
+	return st
+}
+
+// headSites emits the sites of a header expression of if/switch/for (after the init statement).
+func (w *Walker) headSites(e ast.Expr, st *pstate, c *ctl) *pstate {
+	if !w.Sites || e == nil {
+		return st
+	}
+	return w.exprSites(e, nil, false, st, c)
+}
+
+// exprSites walks an expression in evaluation order.
+func (w *Walker) exprSites(e ast.Expr, local []Lit, isLHS bool, st *pstate, c *ctl) *pstate {
+	if e == nil {
+		return st
+	}
+	switch x := e.(type) {
+	case *ast.ParenExpr:
+		return w.exprSites(x.X, local, isLHS, st, c)
+	case *ast.FuncLit:
+		return st
+	case *ast.BinaryExpr:
+		if x.Op == token.LAND || x.Op == token.LOR {
+			st = w.exprSites(x.X, local, false, st, c)
+			f := w.formula(x.X, st, c)
+			if d, ok := DNF(f, x.Op == token.LOR); ok && len(d) == 1 {
+				local = append(append([]Lit{}, local...), d[0]...)
+			}
+			return w.exprSites(x.Y, local, false, st, c)
+		}
+		st = w.exprSites(x.X, local, false, st, c)
+		return w.exprSites(x.Y, local, false, st, c)
+	case *ast.UnaryExpr:
+		if x.Op == token.AND {
+			// &x.f computes an address: x is still dereferenced when it is a pointer
+			return w.exprSites(x.X, local, true, st, c)
+		}
+		return w.exprSites(x.X, local, false, st, c)
+	case *ast.StarExpr:
+		st = w.exprSites(x.X, local, false, st, c)
+		if tv, ok := c.info.Types[x]; ok && tv.IsType() {
+			return st
+		}
+		return w.site("deref", x.X, nil, x, local, st, c)
+	case *ast.SelectorExpr:
+		if sel, ok := c.info.Selections[x]; ok {
+			st = w.exprSites(x.X, local, false, st, c)
+			if sel.Kind() == types.FieldVal {
+				if t := c.info.TypeOf(x.X); t != nil {
+					if _, isPtr := t.Underlying().(*types.Pointer); isPtr {
+						return w.site("deref", x.X, nil, x, local, st, c)
+					}
+				}
+			}
+			return st
+		}
+		return st // qualified identifier
+	case *ast.IndexExpr:
+		st = w.exprSites(x.X, local, false, st, c)
+		st = w.exprSites(x.Index, local, false, st, c)
+		t := c.info.TypeOf(x.X)
+		if t == nil {
+			return st
+		}
+		if tv, ok := c.info.Types[x.X]; ok && tv.IsType() {
+			return st // generic instantiation
+		}
+		switch u := t.Underlying().(type) {
+		case *types.Map:
+			if isLHS {
+				return w.site("mapwrite", x.X, []ast.Expr{x.Index}, x, local, st, c)
+			}
+			return st
+		case *types.Pointer:
+			_ = u
+			return w.site("index", x.X, []ast.Expr{x.Index}, x, local, st, c)
+		case *types.Slice, *types.Array, *types.Basic:
+			return w.site("index", x.X, []ast.Expr{x.Index}, x, local, st, c)
+		}
+		return st
+	case *ast.SliceExpr:
+		st = w.exprSites(x.X, local, false, st, c)
+		var idx []ast.Expr
+		for _, b := range []ast.Expr{x.Low, x.High, x.Max} {
+			if b != nil {
+				st = w.exprSites(b, local, false, st, c)
+				idx = append(idx, b)
+			}
+		}
+		if len(idx) == 0 {
+			return st
+		}
+		return w.site("slice", x.X, idx, x, local, st, c)
+	case *ast.TypeAssertExpr:
+		st = w.exprSites(x.X, local, false, st, c)
+		if x.Type == nil {
+			return st
+		}
+		if tv, ok := c.info.Types[x]; ok {
+			if _, isTuple := tv.Type.(*types.Tuple); isTuple {
+				return st // comma-ok form
+			}
+		}
+		return w.site("assert", x.X, nil, x, local, st, c)
+	case *ast.CallExpr:
+		if tv, ok := c.info.Types[x.Fun]; !ok || !tv.IsType() {
+			st = w.exprSites(x.Fun, local, false, st, c)
+		}
+		for _, a := range x.Args {
+			st = w.exprSites(a, local, false, st, c)
+		}
+		return st
+	case *ast.CompositeLit:
+		for _, el := range x.Elts {
+			if kv, ok := el.(*ast.KeyValueExpr); ok {
+				if _, isStruct := c.info.TypeOf(x).Underlying().(*types.Struct); !isStruct {
+					st = w.exprSites(kv.Key, local, false, st, c)
+				}
+				st = w.exprSites(kv.Value, local, false, st, c)
+			} else {
+				st = w.exprSites(el, local, false, st, c)
+			}
+		}
+		return st
+	case *ast.KeyValueExpr:
+		return w.exprSites(x.Value, local, false, st, c)
+	}
+	return st
+}
+
+func (w *Walker) site(kind string, x ast.Expr, idx []ast.Expr, node ast.Expr, local []Lit, st *pstate, c *ctl) *pstate {
+	ev := Event{Kind: EvSite, Pos: node.Pos(), Node: node, SiteKind: kind, SiteX: w.canon(x, st, c), SiteExpr: x, SiteLocal: local}
+	if t := c.info.TypeOf(x); t != nil {
+		ev.SiteType = w.typeStr(t)
+	}
+	if f := FieldID(c.info, x); f != "" {
+		ev.SiteField = f
+	} else {
+		ev.SiteField = w.aliasFieldID(x, st, c)
+	}
+	for _, i := range idx {
+		ev.SiteIdx = append(ev.SiteIdx, w.canon(i, st, c))
+	}
+	return w.emit(st, ev)
 }
